@@ -12,7 +12,9 @@
 From Coq Require Import List NArith Bool Arith.
 From Tink Require Import Bytes SlhdsaSupport SlhdsaAddr SlhdsaBase SlhdsaWots SlhdsaXmss SlhdsaFors SlhdsaHt
   Slhdsa SlhdsaHash SlhdsaParams SlhdsaSpec
-  SlhdsaSupportProofs SlhdsaWotsProofs SlhdsaXmssProofs SlhdsaForsProofs SlhdsaHtProofs SlhdsaProofs SlhdsaParamsProofs.
+  SlhdsaSupportProofs SlhdsaWotsProofs SlhdsaXmssProofs SlhdsaForsProofs SlhdsaHtProofs SlhdsaProofs SlhdsaParamsProofs
+  SlhdsaFipsSupport SlhdsaFipsLayers SlhdsaFipsTop SlhdsaFipsHash ConstsTieC16 SlhdsaTwelve SlhdsaForgery SlhdsaApiProofs.
+From Tink Require SlhdsaFips.
 Import ListNotations.
 Open Scope N_scope.
 
@@ -258,4 +260,361 @@ Example C16_nonvacuous :
 Proof.
   split; [constructor; intros; reflexivity|]. split; [split; [reflexivity|apply le_S, le_n]|].
   vm_compute. repeat split.
+Qed.
+
+
+(* ========================================================================
+   STRETCH ROUND: the implementation model computes FIPS 205 as the standard
+   writes it.
+
+   model/SlhdsaFips.v (module F below) is a transcription of FIPS 205 made
+   from the text of the standard, independently of the Go code and of the
+   implementation model: unbounded integers; toInt / toByte / base_2b as
+   Algorithms 2-4; ADRS as a 32-byte string with the Table 1 member functions
+   as byte splices, passed BY VALUE; Algorithms 5-20, 22, 24 line by line with
+   the slices the standard writes (getSK, getAUTH, getXMSSSignature, getR, ...),
+   h/d, the ceilings, the digest split with `mod 2^(h-h/d)`; sections 11.1 /
+   11.2.1 / 11.2.2 (ADRS^c, Trunc_n, MGF1 of RFC 8017); Table 2 as literals.
+   It shares nothing with model/Slhdsa*.v except the type `bytes`.
+   ======================================================================== *)
+
+(* A family of the six functions over address RECORDS (what the implementation
+   model takes) that agrees pointwise with a family over 32-byte ADRS strings
+   (what the standard takes).  hash.go's functions use adrs[:] or
+   adrs.compress() only, so every instantiation is of this form
+   (C16_hash_go_is_fips_section_11). *)
+
+(* Algorithm 19: for every parameter record satisfying fips_wf (h = d*h', d >= 1,
+   h-h' <= 64, h' <= 32, 1 <= lg_w <= 25, a <= 25, len2*lg_w <= 32, k*2^a <= 2^32),
+   every pair of agreeing hash families, ALL byte strings as seeds, root,
+   message and randomizer (no length premise): signInternal = slh_sign_internal. *)
+Theorem C16_signInternal_is_fips_alg19 :
+  forall P HS HF, hashes_agree HS HF -> fips_wf P = true ->
+  forall skSeed skPrf pkSeed pkRoot msg addrnd,
+    signInternal P HS skSeed skPrf pkSeed pkRoot msg addrnd
+    = F.slh_sign_internal (to_fips P) HF msg (skSeed, skPrf, pkSeed, pkRoot) addrnd.
+Proof. exact signInternal_fips. Qed.
+Print Assumptions C16_signInternal_is_fips_alg19.
+
+(* Algorithm 20, for ALL byte strings as key, message and signature *)
+Theorem C16_verifyInternal_is_fips_alg20 :
+  forall P HS HF, hashes_agree HS HF -> fips_wf P = true ->
+  forall pkSeed pkRoot msg sig,
+    verifyInternal P HS pkSeed pkRoot msg sig = F.slh_verify_internal (to_fips P) HF msg sig (pkSeed, pkRoot).
+Proof. exact verifyInternal_fips_alg20. Qed.
+Print Assumptions C16_verifyInternal_is_fips_alg20.
+
+(* Algorithm 18 (and the section 9.1 encoding of its secret key) *)
+Theorem C16_keygen_is_fips_alg18 :
+  forall P HS HF, hashes_agree HS HF -> fips_wf P = true ->
+  forall skSeed skPrf pkSeed,
+    F.slh_keygen_internal (to_fips P) HF skSeed skPrf pkSeed
+    = ((skSeed, skPrf, pkSeed, keygenRoot P HS skSeed pkSeed), (pkSeed, keygenRoot P HS skSeed pkSeed))
+    /\ keygen P HS skSeed skPrf pkSeed = F.sk_encode (fst (F.slh_keygen_internal (to_fips P) HF skSeed skPrf pkSeed)).
+Proof.
+  intros P HS HF AG WF skSeed skPrf pkSeed.
+  split; [exact (keygen_fips P HS HF AG WF _ _ _)|exact (keygen_encoded_fips P HS HF AG WF _ _ _)].
+Qed.
+Print Assumptions C16_keygen_is_fips_alg18.
+
+(* Algorithms 22 / 24 (context string: M' = toByte(0,1) || toByte(|ctx|,1) || ctx || M,
+   |ctx| > 255 refused) around the section 9.1 key decodings, for ALL byte strings *)
+Theorem C16_sign_verify_are_fips_alg22_alg24 :
+  forall P HS HF, hashes_agree HS HF -> fips_wf P = true ->
+  (forall sk msg ctx addrnd,
+     sign P HS sk msg ctx addrnd
+     = match F.sk_decode (to_fips P) sk with
+       | Some SK => F.slh_sign (to_fips P) HF msg ctx SK addrnd
+       | None => None
+       end) /\
+  (forall pk msg sig ctx,
+     verify P HS pk msg sig ctx
+     = match F.pk_decode (to_fips P) pk with
+       | Some PK => Some (F.slh_verify (to_fips P) HF msg sig ctx PK)
+       | None => None
+       end).
+Proof. intros P HS HF AG WF. split; [exact (sign_fips P HS HF AG WF)|exact (verify_fips P HS HF AG WF)]. Qed.
+Print Assumptions C16_sign_verify_are_fips_alg22_alg24.
+
+(* the Tink layer: output prefix (0x01 || toByte(id,4) or empty) around slh_sign / slh_verify
+   with the empty context *)
+Theorem C16_tink_layer_is_prefix_around_fips :
+  forall P HS HF, hashes_agree HS HF -> fips_wf P = true ->
+  (forall tv id pk msg sig,
+     tink_verify P HS tv id pk msg sig
+     = match F.pk_decode (to_fips P) pk with
+       | None => None
+       | Some PK =>
+         let pre := tink_prefix_spec tv id in
+         Some (if beq (F.sl sig 0 (length pre)) pre
+               then F.slh_verify (to_fips P) HF msg (F.sl sig (length pre) (length sig)) [] PK else false)
+       end) /\
+  (forall tv id sk msg addrnd,
+     tink_sign P HS tv id sk msg addrnd
+     = match F.sk_decode (to_fips P) sk with
+       | None => None
+       | Some SK => match F.slh_sign (to_fips P) HF msg [] SK addrnd with
+                    | Some s => Some (tink_prefix_spec tv id ++ s)
+                    | None => None
+                    end
+       end).
+Proof. intros P HS HF AG WF. split; [exact (tink_verify_fips P HS HF AG WF)|exact (tink_sign_fips P HS HF AG WF)]. Qed.
+Print Assumptions C16_tink_layer_is_prefix_around_fips.
+
+(* the building blocks (section 4): toByte, toInt, base_2b, the ceilings and
+   lengths, the ADRS member functions and the compressed address *)
+Theorem C16_section4_functions_are_fips :
+  (forall x k, SlhdsaSupport.toByte x k = F.toByte (u32 x) k) /\
+  (forall X k, SlhdsaSupport.toInt X k = F.toInt X k mod 2 ^ 64) /\
+  (forall X b out, (b + 7 <= 32)%nat -> base2b X b out = F.base_2b X b out) /\
+  (forall P, (1 <= p_lgw P)%nat ->
+     F.f_len1 (to_fips P) = p_len1 P /\ F.f_len2 (to_fips P) = p_len2 P /\ F.f_len (to_fips P) = p_len P) /\
+  (forall ad l t y i,
+     F.setLayerAddress l (adrs_bytes ad) = adrs_bytes (setLayerAddress l ad) /\
+     (t < 2 ^ 64 -> F.setTreeAddress t (adrs_bytes ad) = adrs_bytes (setTreeAddress t ad)) /\
+     F.setTypeAndClear y (adrs_bytes ad) = adrs_bytes (setTypeAndClear y ad) /\
+     F.setKeyPairAddress i (adrs_bytes ad) = adrs_bytes (setKeyPairAddress i ad) /\
+     F.setChainAddress i (adrs_bytes ad) = adrs_bytes (setChainAddress i ad) /\
+     F.setTreeHeight i (adrs_bytes ad) = adrs_bytes (setTreeHeight i ad) /\
+     F.setHashAddress i (adrs_bytes ad) = adrs_bytes (setHashAddress i ad) /\
+     F.setTreeIndex i (adrs_bytes ad) = adrs_bytes (setTreeIndex i ad) /\
+     F.getKeyPairAddress (adrs_bytes ad) = a_kp ad mod 2 ^ 32 /\
+     F.getTreeIndex (adrs_bytes ad) = a_w3 ad mod 2 ^ 32 /\
+     F.ADRSc (adrs_bytes ad) = compress ad /\ length (adrs_bytes ad) = 32%nat) /\
+  F.toByte 0 32 = adrs_bytes newAddress.
+Proof. exact section4_functions_fips. Qed.
+Print Assumptions C16_section4_functions_are_fips.
+
+(* hash.go = FIPS 205 section 11 (11.1 SHAKE, 11.2.1 SHA2 category 1, 11.2.2 SHA2
+   categories 3 and 5), given the digest lengths of SHA-256 and SHA-512 (MGF1 rounds) *)
+Theorem C16_hash_go_is_fips_section_11 :
+  forall (sha256 sha512 : bytes -> bytes) (shake256 : bytes -> nat -> bytes) (hmac256 hmac512 : bytes -> bytes -> bytes),
+    (forall m, length (sha256 m) = 32%nat) -> (forall m, length (sha512 m) = 64%nat) ->
+  forall hk P,
+    hashes_agree (mk_hashes sha256 sha512 shake256 hmac256 hmac512 hk P)
+                 (fips_inst sha256 sha512 shake256 hmac256 hmac512 (family_of hk) (p_n P) (p_m P)).
+Proof. exact mk_hashes_fips. Qed.
+Print Assumptions C16_hash_go_is_fips_section_11.
+
+(* === the parameter sets are Table 2 of FIPS 205 ========================== *)
+
+(* the twelve regenerated sets (gen/SlhdsaParams.v, from slhdsa.go), in order:
+   section-11 family, (n, h, d, h', a, k, lg_w, m), public key bytes 2n and the
+   signature length verifyInternal checks = the twelve literal rows of Table 2 *)
+Theorem C16_parameter_sets_are_fips_table2 : map row_of all_sets = F.table2.
+Proof. exact tie_all_sets. Qed.
+Print Assumptions C16_parameter_sets_are_fips_table2.
+
+(* Table 2 agrees with the standard's own formulas: pk = 2n, sig = (1+k(1+a)+h+d*len)*n,
+   m = ceil(k*a/8)+ceil((h-h/d)/8)+ceil(h/(8d)), h = d*h', w = 16, len = 2n+3 *)
+Theorem C16_table2_consistent_with_fips_formulas : forallb row_consistent F.table2 = true.
+Proof. exact table2_consistent. Qed.
+Print Assumptions C16_table2_consistent_with_fips_formulas.
+
+Theorem C16_parameter_sets_lengths_are_table2 :
+  forall s, In s all_sets ->
+  exists fam fp pkb sigb, In (fam, fp, pkb, sigb) F.table2 /\ to_fips (fst s) = fp /\ family_of (snd s) = fam /\
+    N.of_nat (2 * p_n (fst s)) = pkb /\ N.of_nat (4 * p_n (fst s)) = 2 * pkb /\ N.of_nat (sig_len (fst s)) = sigb.
+Proof. exact tie_lengths. Qed.
+Print Assumptions C16_parameter_sets_lengths_are_table2.
+
+Theorem C16_parameter_sets_fips_wf : forallb (fun s => fips_wf (fst s)) all_sets = true.
+Proof. exact all_sets_fips_wf. Qed.
+Print Assumptions C16_parameter_sets_fips_wf.
+
+(* === all twelve sets, as instantiated by hash.go, compute FIPS 205 ======= *)
+Theorem C16_twelve_sets_compute_fips_205 :
+  forall (sha256 sha512 : bytes -> bytes) (shake256 : bytes -> nat -> bytes) (hmac256 hmac512 : bytes -> bytes -> bytes),
+    (forall m, length (sha256 m) = 32%nat) -> (forall m, length (sha512 m) = 64%nat) ->
+  forall s, In s all_sets ->
+    let P := fst s in
+    let FP := to_fips P in
+    let HS := mk_hashes sha256 sha512 shake256 hmac256 hmac512 (snd s) P in
+    let HF := fips_inst sha256 sha512 shake256 hmac256 hmac512 (family_of (snd s)) (F.f_n FP) (F.f_m FP) in
+    In (row_of s) F.table2 /\
+    (forall skSeed skPrf pkSeed,
+       keygen P HS skSeed skPrf pkSeed = F.sk_encode (fst (F.slh_keygen_internal FP HF skSeed skPrf pkSeed))) /\
+    (forall skSeed skPrf pkSeed pkRoot msg addrnd,
+       signInternal P HS skSeed skPrf pkSeed pkRoot msg addrnd
+       = F.slh_sign_internal FP HF msg (skSeed, skPrf, pkSeed, pkRoot) addrnd) /\
+    (forall pkSeed pkRoot msg sig,
+       verifyInternal P HS pkSeed pkRoot msg sig = F.slh_verify_internal FP HF msg sig (pkSeed, pkRoot)) /\
+    (forall sk msg ctx addrnd,
+       sign P HS sk msg ctx addrnd
+       = match F.sk_decode FP sk with Some SK => F.slh_sign FP HF msg ctx SK addrnd | None => None end) /\
+    (forall pk msg sig ctx,
+       verify P HS pk msg sig ctx
+       = match F.pk_decode FP pk with Some PK => Some (F.slh_verify FP HF msg sig ctx PK) | None => None end).
+Proof. exact twelve_sets_compute_fips. Qed.
+Print Assumptions C16_twelve_sets_compute_fips_205.
+
+(* key-pair consistency for the twelve sets: the generated secret key is
+   SK.seed || SK.prf || PK.seed || PK.root with PK.root the root Algorithm 18
+   computes from (SK.seed, PK.seed) under THIS set's functions, the public key
+   is its last 2n bytes PK.seed || PK.root, both have the Table 2 sizes, and
+   that public key is the one under which verify recomputes the root: it
+   accepts every signature the secret key produces. *)
+Theorem C16_twelve_sets_keypair_consistency :
+  forall (sha256 sha512 : bytes -> bytes) (shake256 : bytes -> nat -> bytes) (hmac256 hmac512 : bytes -> bytes -> bytes),
+    (forall m, length (sha256 m) = 32%nat) -> (forall m, length (sha512 m) = 64%nat) ->
+    (forall m l, length (shake256 m l) = l) ->
+    (forall k m, length (hmac256 k m) = 32%nat) -> (forall k m, length (hmac512 k m) = 64%nat) ->
+  forall s, In s all_sets ->
+    let P := fst s in
+    let FP := to_fips P in
+    let HS := mk_hashes sha256 sha512 shake256 hmac256 hmac512 (snd s) P in
+    let HF := fips_inst sha256 sha512 shake256 hmac256 hmac512 (family_of (snd s)) (F.f_n FP) (F.f_m FP) in
+  forall skSeed skPrf pkSeed,
+    length skSeed = p_n P -> length skPrf = p_n P -> length pkSeed = p_n P ->
+    let sk := keygen P HS skSeed skPrf pkSeed in
+    let pk := skipn (2 * p_n P) sk in
+    let root := snd (snd (F.slh_keygen_internal FP HF skSeed skPrf pkSeed)) in
+    sk = skSeed ++ skPrf ++ pkSeed ++ root /\ pk = pkSeed ++ root /\
+    length sk = (4 * p_n P)%nat /\ length pk = (2 * p_n P)%nat /\
+    forall msg ctx addrnd, (length ctx <= 255)%nat ->
+      exists sig, sign P HS sk msg ctx addrnd = Some sig /\ verify P HS pk msg sig ctx = Some true.
+Proof. exact twelve_sets_keypair. Qed.
+Print Assumptions C16_twelve_sets_keypair_consistency.
+
+(* === a signature of the wrong length is rejected, at every layer ========= *)
+Theorem C16_wrong_length_rejected_by_verify :
+  forall P HS pk msg sig ctx, length sig <> sig_len P ->
+    verify P HS pk msg sig ctx = if Nat.eqb (length pk) (2 * p_n P) then Some false else None.
+Proof. exact verify_wrong_length. Qed.
+Print Assumptions C16_wrong_length_rejected_by_verify.
+
+Theorem C16_wrong_length_rejected_by_tink_verify :
+  forall P HS tv id pk msg sig, length sig <> (length (tink_prefix tv id) + sig_len P)%nat ->
+    tink_verify P HS tv id pk msg sig = if Nat.eqb (length pk) (2 * p_n P) then Some false else None.
+Proof. exact tink_verify_wrong_length. Qed.
+Print Assumptions C16_wrong_length_rejected_by_tink_verify.
+
+(* the Tink verifier accepts exactly prefix || s with s accepted by Verify(msg, s, ctx = empty) *)
+Theorem C16_tink_verify_accepts_iff :
+  forall P HS tv id pk msg sig,
+    tink_verify P HS tv id pk msg sig = Some true <->
+    exists s, sig = tink_prefix tv id ++ s /\ verify P HS pk msg s [] = Some true.
+Proof. exact tink_verify_accepts_iff. Qed.
+Print Assumptions C16_tink_verify_accepts_iff.
+
+(* === "any modification of a signature is rejected", as a reduction ======= *)
+(* th_collision HS pk : F, H or T_l called with the same PK.seed and the same
+   ADRS on two DIFFERENT inputs of EQUAL POSITIVE length, equal outputs.
+   wots_switch P HS pk : two WOTS+ signatures (len*n bytes each) on DIFFERENT
+   messages that lead to the same WOTS+ public key at the same address.
+   Two accepted (message, signature) pairs under one public key whose digests
+   select the same FORS indices / tree / leaf have the same body SIG_FORS || SIG_HT,
+   or exhibit one of the two.  (See proofs/SlhdsaForgery.v for what is not
+   claimed: modifications that change the digest's selectors.) *)
+Theorem C16_two_accepted_signatures_reduction :
+  forall P HS, hashes_ok P HS -> params_wf P -> forall pkSeed pkRoot msg sig msg' sig',
+    verifyInternal P HS pkSeed pkRoot msg sig = true ->
+    verifyInternal P HS pkSeed pkRoot msg' sig' = true ->
+    selectors P HS pkSeed pkRoot msg sig = selectors P HS pkSeed pkRoot msg' sig' ->
+    sig_body P sig = sig_body P sig' \/ wots_switch P HS pkSeed \/ th_collision HS pkSeed.
+Proof. exact two_accepted_signatures. Qed.
+Print Assumptions C16_two_accepted_signatures_reduction.
+
+(* same key, same message, same randomizer R, different signature, both accepted *)
+Theorem C16_modified_signature_reduction :
+  forall P HS, hashes_ok P HS -> params_wf P ->
+  (forall pkSeed pkRoot msg sig sig',
+     verifyInternal P HS pkSeed pkRoot msg sig = true -> verifyInternal P HS pkSeed pkRoot msg sig' = true ->
+     firstn (p_n P) sig = firstn (p_n P) sig' -> sig <> sig' ->
+     wots_switch P HS pkSeed \/ th_collision HS pkSeed) /\
+  (forall pk msg ctx sig sig',
+     verify P HS pk msg sig ctx = Some true -> verify P HS pk msg sig' ctx = Some true ->
+     firstn (p_n P) sig = firstn (p_n P) sig' -> sig <> sig' ->
+     wots_switch P HS (firstn (p_n P) pk) \/ th_collision HS (firstn (p_n P) pk)) /\
+  (forall tv id pk msg sig sig',
+     tink_verify P HS tv id pk msg sig = Some true -> tink_verify P HS tv id pk msg sig' = Some true ->
+     firstn (length (tink_prefix tv id) + p_n P) sig = firstn (length (tink_prefix tv id) + p_n P) sig' -> sig <> sig' ->
+     wots_switch P HS (firstn (p_n P) pk) \/ th_collision HS (firstn (p_n P) pk)).
+Proof.
+  intros P HS OK PW. split; [exact (modified_signature_accepted P HS OK PW)|].
+  split; [exact (verify_modified_signature P HS OK PW)|exact (tink_verify_modified_signature P HS OK PW)].
+Qed.
+Print Assumptions C16_modified_signature_reduction.
+
+(* what a WOTS+ switch is: the two WOTS+ signatures (on messages M, M' with
+   digit strings m, m') that lead to the same WOTS+ public key are related chain
+   by chain: the value for the larger digit is the forward chain image of the
+   value for the smaller one (or there is a collision).  The checksum makes some
+   digit go down when another goes up, so whoever produced the second signature
+   from the first needed a chain preimage somewhere. *)
+Theorem C16_wots_switch_is_chain_walking :
+  forall P HS, hashes_ok P HS -> forall pk l t kp M M' s s',
+    length s = (p_len P * p_n P)%nat -> length s' = (p_len P * p_n P)%nat ->
+    wotsPkFromSigS P HS l t kp (wotsChecksum P M) s pk = wotsPkFromSigS P HS l t kp (wotsChecksum P M') s' pk ->
+    th_collision HS pk \/ forall i, (i < p_len P)%nat ->
+      let m := nth i (wotsChecksum P M) 0 in let m' := nth i (wotsChecksum P M') 0 in
+      (m <= m' -> chunk P i s' = chainS HS l t kp (N.of_nat i) pk (chunk P i s) m (N.to_nat (m' - m))) /\
+      (m' <= m -> chunk P i s = chainS HS l t kp (N.of_nat i) pk (chunk P i s') m' (N.to_nat (m - m'))).
+Proof. intros P HS OK pk l t kp M M' s s'. exact (wots_switch_walk P HS OK pk l t kp M M' s s'). Qed.
+Print Assumptions C16_wots_switch_is_chain_walking.
+
+(* a modified PK.root (same PK.seed): one signature cannot be accepted under two
+   roots unless the two digests (PK.root is hashed into them) select differently *)
+Theorem C16_modified_root_rejected_for_equal_selectors :
+  forall P HS pkSeed pkRoot pkRoot' msg sig,
+    verifyInternal P HS pkSeed pkRoot msg sig = true ->
+    verifyInternal P HS pkSeed pkRoot' msg sig = true ->
+    (let '(md, it, il) := split_digest P (hHMsg HS (firstn (p_n P) sig) pkSeed pkRoot msg) in (base2b md (p_a P) (p_k P), it, il))
+    = (let '(md, it, il) := split_digest P (hHMsg HS (firstn (p_n P) sig) pkSeed pkRoot' msg) in (base2b md (p_a P) (p_k P), it, il)) ->
+    pkRoot = pkRoot'.
+Proof. exact two_roots. Qed.
+Print Assumptions C16_modified_root_rejected_for_equal_selectors.
+
+(* === non-vacuity of the stretch theorems ================================= *)
+(* the toy family over 32-byte ADRS strings that toyHS agrees with *)
+Definition toyHF : F.fips_hashes :=
+  F.mkFH (fun r s t m => let x := toy_sum (r ++ s ++ t ++ m) in [x mod 256; (3 * x + 1) mod 256; (5 * x + 2) mod 256])
+         (fun p s A => toy_mix (p ++ A ++ s))
+         (fun s o m => toy_mix (s ++ o ++ m))
+         (fun p A x => toy_mix (p ++ F.ADRSc A ++ x))
+         (fun p A x => toy_mix (p ++ A ++ x))
+         (fun p A x => toy_mix (p ++ A ++ x)).
+
+(* premises of the FIPS equalities are inhabited; on the instance both sides
+   compute to the same 66 bytes / the same verdicts (genuine, modified, short) *)
+Example C16_fips_nonvacuous :
+  hashes_agree toyHS toyHF /\ fips_wf toyP = true /\
+  let sk := keygen toyP toyHS [1; 2] [3; 4] [5; 6] in
+  let SK : bytes * bytes * bytes * bytes := ([1; 2], [3; 4], [5; 6], skipn 6 sk) in
+  let sig := F.slh_sign_internal (to_fips toyP) toyHF [9; 9; 9] SK [8; 8] in
+  fst (F.slh_keygen_internal (to_fips toyP) toyHF [1; 2] [3; 4] [5; 6]) = SK /\
+  length sig = 66%nat /\ sig = signInternal toyP toyHS [1; 2] [3; 4] [5; 6] (skipn 6 sk) [9; 9; 9] [8; 8] /\
+  F.slh_verify_internal (to_fips toyP) toyHF [9; 9; 9] sig ([5; 6], skipn 6 sk) = true /\
+  F.slh_verify_internal (to_fips toyP) toyHF [9; 9; 8] sig ([5; 6], skipn 6 sk) = false /\
+  F.slh_verify_internal (to_fips toyP) toyHF [9; 9; 9] (firstn 65 sig) ([5; 6], skipn 6 sk) = false.
+Proof.
+  split.
+  { constructor; intros; cbn [toyHS toyHF hHMsg hPrf hPrfMsg hF hH hTl F.H_msg F.PRF F.PRF_msg F.F F.H F.T_l];
+      rewrite ?AB_compress; reflexivity. }
+  split; [reflexivity|]. vm_compute. repeat split.
+Qed.
+
+(* premises of the modified-signature reduction are inhabited, and its
+   conclusion is then a REAL collision: on the toy family (16-bit outputs) the
+   genuine signature with its last two bytes 147,124 replaced by 148,93 is
+   accepted too (same key, same message, same R); the two verifications call H
+   at the top of the hypertree (layer 1, tree 0, height 2, index 0) on two
+   different 4-byte inputs with the same 2-byte output, the public root. *)
+Example C16_modified_signature_nonvacuous :
+  hashes_ok toyP toyHS /\ params_wf toyP /\
+  let sk := keygen toyP toyHS [1; 2] [3; 4] [5; 6] in
+  let root := skipn 6 sk in
+  let sig := signInternal toyP toyHS [1; 2] [3; 4] [5; 6] root [9; 9; 9] [8; 8] in
+  let sig' := firstn 64 sig ++ [148; 93] in
+  verifyInternal toyP toyHS [5; 6] root [9; 9; 9] sig = true /\
+  verifyInternal toyP toyHS [5; 6] root [9; 9; 9] sig' = true /\
+  firstn (p_n toyP) sig = firstn (p_n toyP) sig' /\ sig <> sig' /\
+  let ad := mkA 1 0 T_TREE 0 2 0 in
+  let x := [147; 124; 119; 44] in
+  let y := [148; 93; 119; 44] in
+  x <> y /\ length x = length y /\ (0 < length x)%nat /\ hH toyHS [5; 6] ad x = hH toyHS [5; 6] ad y
+  /\ hH toyHS [5; 6] ad x = root.
+Proof.
+  split; [constructor; intros; reflexivity|]. split; [split; [reflexivity|apply le_S, le_n]|].
+  vm_compute. repeat split; try discriminate. apply le_S, le_S, le_S, le_n.
 Qed.
